@@ -608,3 +608,131 @@ func ruleBestHeightReadWhileParked(c *report.Ctx) {
 		c.Fail(sk(ai)+":bestBlock", "asyncImport no longer consults the follower's best height (anchor lost)", p.Pos(ai.Pos()))
 	}
 }
+
+// ruleUnmarshalLeavesKeyUsable (C19): after SecretKey.Unmarshal — successful or not — the key buffer exists.
+func ruleUnmarshalLeavesKeyUsable(c *report.Ctx) {
+	p := c.P
+	c.Rule("unmarshal-leaves-key-usable", "every return of snacl.(*SecretKey).Unmarshal, the error returns included, is reached with SecretKey.Key allocated (through the store that allocates it or over the `Key != nil` edge): callers register `defer key.Zero()` on a zero-value SecretKey before they unmarshal a request-supplied blob, and Zero dereferences Key — a malformed keystore file (e.g. hex of the wrong length in crypto.privParams) would otherwise panic inside the import's write transaction with the wallet lock held", 1)
+	um := fn(c, pkgSnacl, "SecretKey", "Unmarshal")
+	sk0 := p.Type(pkgSnacl, "SecretKey")
+	if um == nil || sk0 == nil {
+		return
+	}
+	isKeyStore := func(in ssa.Instruction) bool {
+		st, ok := in.(*ssa.Store)
+		return ok && addrRootsAtField(st.Addr, sk0, "Key")
+	}
+	s := &an.Search{P: p, Fn: um, Cut: isKeyStore,
+		GoalReturn: func(*ssa.Return, *ssa.BasicBlock) bool { return true },
+		CutEdge: func(from, to *ssa.BasicBlock) bool {
+			ifi, ok := from.Instrs[len(from.Instrs)-1].(*ssa.If)
+			if !ok {
+				return false
+			}
+			for _, a := range p.GuardsOnEdge(from, to) {
+				if a.If == ifi && a.Op == token.NEQ && a.Y != nil && an.IsNilConst(a.Y) && strings.HasSuffix(p.Desc(a.X), "SecretKey.Key") {
+					return true
+				}
+			}
+			return false
+		}}
+	key := sk(um) + ":Key-allocated-on-every-return"
+	if w := s.Run(um.Blocks[0], 0, nil); w != nil {
+		c.Fail(key, "Unmarshal can return (with ErrMalformed) before SecretKey.Key is allocated: allocAddrMgrNamespace and the other import paths have already deferred Zero() on the zero-value key, and Zero dereferences the nil Key — a truncated privParams blob in an ImportWallet request panics the server", p.Pos(um.Pos()), w...)
+	} else {
+		c.OK(key, "Key exists on every return", p.Pos(um.Pos()))
+	}
+}
+
+// ruleRestoreSliceCoversRequestedCount (C19): the restore scan derives at least as many addresses as it later slices.
+func ruleRestoreSliceCoversRequestedCount(c *report.Ctx) {
+	p := c.P
+	c.Rule("restore-slice-covers-requested-count", "in createManagerKeyScope a list of scanned addresses that is cut at a bound raised to the caller-supplied child count (addressInfo[:nextIndex] with nextIndex >= HDPath.InternalChildNum / ExternalChildNum) is filled by a loop whose continuation test also runs to that count (i < count + gap): the count comes from an ImportMnemonic request or a keystore file, so a scan that stops at the gap limit past the last used address makes the slice expression panic for a count above the gap limit", 2)
+	f := fn(c, pkgKeystore, "", "createManagerKeyScope")
+	if f == nil {
+		return
+	}
+	n := 0
+	for _, fld := range []string{"InternalChildNum", "ExternalChildNum"} {
+		// is there a slice cut whose bound can be that field?
+		var cut ssa.Instruction
+		an.Instrs(f, func(in ssa.Instruction) {
+			sl, ok := in.(*ssa.Slice)
+			if !ok || sl.High == nil || cut != nil {
+				return
+			}
+			if mentionsField(p, sl.High, fld, 0) {
+				cut = in
+			}
+		})
+		if cut == nil {
+			continue
+		}
+		n++
+		key := sk(f) + ":scan-runs-to:" + fld
+		ok := false
+		for _, b := range f.Blocks {
+			ifi, isIf := b.Instrs[len(b.Instrs)-1].(*ssa.If)
+			if !isIf {
+				continue
+			}
+			cmp, isCmp := ifi.Cond.(*ssa.BinOp)
+			if !isCmp || cmp.Op != token.LSS {
+				continue
+			}
+			if call, isCall := cmp.Y.(*ssa.Call); isCall && len(call.Call.Args) == 2 && mentionsField(p, call.Call.Args[0], fld, 0) {
+				// a loop test: its block is in a cycle
+				if loopHeaderOf(b) != nil || blockInCycle(b) {
+					ok = true
+				}
+			}
+		}
+		if ok {
+			c.OK(key, "the scan loop also runs while i < "+fld+" + gap", posOf(c, cut))
+		} else {
+			c.Fail(key, "the list cut at a bound that can be HDPath."+fld+" is filled by a scan that does not run to that count: for a caller-supplied count above the gap limit (ImportMnemonic internal_index / external_index, or the child numbers of a keystore file) the slice expression is out of range and the import panics inside the write transaction", posOf(c, cut))
+		}
+	}
+	if n == 0 {
+		c.Fail(sk(f)+":scan-cut", "createManagerKeyScope no longer cuts its scanned address lists at the recorded child count (anchor lost)", p.Pos(f.Pos()))
+	}
+}
+
+func mentionsField(p *an.Prog, v ssa.Value, fld string, depth int) bool {
+	if depth > 5 {
+		return false
+	}
+	switch x := v.(type) {
+	case *ssa.UnOp:
+		if fa, ok := x.X.(*ssa.FieldAddr); ok {
+			if st := derefStructOf(fa.X.Type()); st != nil && an.FName(st, fa.Field) == fld {
+				return true
+			}
+		}
+		return mentionsField(p, x.X, fld, depth+1)
+	case *ssa.Phi:
+		for _, e := range x.Edges {
+			if mentionsField(p, e, fld, depth+1) {
+				return true
+			}
+		}
+	case *ssa.Convert:
+		return mentionsField(p, x.X, fld, depth+1)
+	case *ssa.BinOp:
+		return mentionsField(p, x.X, fld, depth+1) || mentionsField(p, x.Y, fld, depth+1)
+	case *ssa.Field:
+		if st := derefStructOf(x.X.Type()); st != nil && an.FName(st, x.Field) == fld {
+			return true
+		}
+	}
+	return false
+}
+
+func blockInCycle(b *ssa.BasicBlock) bool {
+	for _, s := range b.Succs {
+		if blockReaches(s, b) {
+			return true
+		}
+	}
+	return false
+}
